@@ -267,7 +267,7 @@ CHECKS["C09"].update(
 
 TIED = (" Tied to the source by proof as well: harness/pyast2lean.py translates the current Python text of %s into Lean definitions "
         "(lean/Tdms/Generated/Code.lean, regenerated on every run) and the *_tied theorems prove them equal to the model functions the theorems above are about; "
-        "a semantic edit of those functions stops the build (83-case self-test: harness/pyast2lean_selftest.py), a cosmetic one does not.")
+        "a semantic edit of those functions stops the build (180-case self-test: harness/pyast2lean_selftest.py), a cosmetic one does not.")
 CHECKS["C03"].update(category="proof",
     text="For every reader state satisfying the decidable invariant SegsWf (tag at each segment start, distinct paths per segment, contiguous reader, exact chunks incl. "
          "truncated final chunks; proved for ANY byte string readMetadata accepts whose segments hold fixed-width contiguous data — invariants_hold_sized — and for the "
@@ -366,6 +366,15 @@ CHECKS["C07"].update(text=CHECKS["C07"]["text"].replace("Bridge: the writer's by
     "remains as a hypothesis, none for a single session; typesConsistent_iff characterises the guard exactly; exAcross_finding is the kernel-checked witness of the known "
     "finding. Bridge: the writer's bytes ARE a spec encoding"))
 CHECKS["C11"].update(text=CHECKS["C11"]["text"] + " Lazy windows of scaler data = slices of the eager scaler data: window_eq_eager_daqmx (C11Lazy).")
+
+for _k, _fns in (("C13", "the from_properties constructors and scale methods of the structural scalings, _get_number_of_scalings, _get_channel_scaling, get_scaling, MultiScaling._compute_scaled_data"),
+                 ("C14", "MultiScaling._compute_scale_dtype / get_dtype"),
+                 ("C17", "from_properties of RTD / Strain / Thermistor, _adjust_for_lead_resistance, StrainScaling.scale and the resistance parts of the RTD / thermistor scale methods"),
+                 ("C07", "_to_tdms_value, to_int_property_value, _infer_dtype"),
+                 ("C08", "_path_ordering_key, object_data_size, TdmsSegment.raw_data_index / _data_size / leadin / __init__, and write_segment's object completion, type guard and state update"),
+                 ("C18", "Range.within_range, Polynomial.within_range, _verify_contiguous"),
+                 ("C20", "TdmsReader.__init__ / close and TdmsWriter.open / close (which handles are opened and closed for every kind of source)")):
+    CHECKS[_k].update(text=CHECKS[_k]["text"] + TIED % _fns)
 
 NOTES = ("Properties move from not_applicable to checks as their model, correspondence and theorems are built; a check is claimed at `proof` only when its "
          "headline theorems are registered in lean/obligations.json. See DESIGN.md.")
